@@ -40,6 +40,9 @@ func init() {
 			ruleLitInit(c, r, "")
 			ruleLoopAdvanceExact(c, r, "")
 			ruleNilDecoder(c, r, "")
+			ruleArraySlices(c, r, "")
+			ruleRingWriters(c, r, "")
+			ruleApplyOps(c, r, "")
 			ruleXZReaderBounds(c, r)
 			t := getChunkTables(c, r, "")
 			ruleControlByte(c, r, t, "", true)
